@@ -562,6 +562,9 @@ pub enum Front {
     Raw,
     Raii,
     Eio,
+    /// like Raii, but files and directories are closed by dropping the wrapper (Drop = close ignoring the error)
+    /// and volumes are opened through `open_volume`
+    Drop,
 }
 
 pub struct WorldCfg {
@@ -736,7 +739,13 @@ impl World {
         let vm = &self.vm;
         let front = self.cfg.front;
         match op {
-            Op::OpenVol { v } => match lift(catch_quiet(|| vm.open_raw_volume(VolumeIdx(v as usize)))) {
+            Op::OpenVol { v } => match lift(catch_quiet(|| {
+                if front == Front::Drop {
+                    vm.open_volume(VolumeIdx(v as usize)).map(|x| x.to_raw_volume())
+                } else {
+                    vm.open_raw_volume(VolumeIdx(v as usize))
+                }
+            })) {
                 Ok(h) => {
                     self.vols[v as usize] = Some(h);
                     Res::Ok
@@ -796,6 +805,10 @@ impl World {
                 let h = self.dirs[d as usize].unwrap();
                 let r = match front {
                     Front::Raw => lift(catch_quiet(|| vm.close_dir(h))),
+                    Front::Drop => lift(catch_quiet(|| {
+                        drop(h.to_directory(vm));
+                        Ok(())
+                    })),
                     _ => lift(catch_quiet(|| h.to_directory(vm).close())),
                 };
                 match r {
@@ -836,7 +849,7 @@ impl World {
                 let buf: Vec<u8> = (0..n).map(|i| payload(f, wseq, off.wrapping_add(i))).collect();
                 let r = match front {
                     Front::Raw => lift(catch_quiet(|| vm.write(h, &buf))),
-                    Front::Raii => lift(catch_quiet(|| {
+                    Front::Raii | Front::Drop => lift(catch_quiet(|| {
                         let fl = h.to_file(vm);
                         let r = fl.write(&buf);
                         let _ = fl.to_raw_file();
@@ -885,7 +898,7 @@ impl World {
                 let mut buf = vec![0xEEu8; n as usize];
                 let r = match front {
                     Front::Raw => lift(catch_quiet(|| vm.read(h, &mut buf))),
-                    Front::Raii => lift(catch_quiet(|| {
+                    Front::Raii | Front::Drop => lift(catch_quiet(|| {
                         let fl = h.to_file(vm);
                         let r = fl.read(&mut buf);
                         let _ = fl.to_raw_file();
@@ -918,7 +931,7 @@ impl World {
                 let h = self.files[f as usize].unwrap();
                 let r = match front {
                     Front::Raw => lift(catch_quiet(|| vm.file_seek_from_start(h, o))),
-                    Front::Raii => lift(catch_quiet(|| {
+                    Front::Raii | Front::Drop => lift(catch_quiet(|| {
                         let fl = h.to_file(vm);
                         let r = fl.seek_from_start(o);
                         let _ = fl.to_raw_file();
@@ -943,7 +956,7 @@ impl World {
                 let h = self.files[f as usize].unwrap();
                 let r = match front {
                     Front::Raw => lift(catch_quiet(|| vm.file_seek_from_current(h, o))),
-                    Front::Raii => lift(catch_quiet(|| {
+                    Front::Raii | Front::Drop => lift(catch_quiet(|| {
                         let fl = h.to_file(vm);
                         let r = fl.seek_from_current(o);
                         let _ = fl.to_raw_file();
@@ -966,7 +979,7 @@ impl World {
                 let h = self.files[f as usize].unwrap();
                 let r = match front {
                     Front::Raw => lift(catch_quiet(|| vm.file_seek_from_end(h, o))),
-                    Front::Raii => lift(catch_quiet(|| {
+                    Front::Raii | Front::Drop => lift(catch_quiet(|| {
                         let fl = h.to_file(vm);
                         let r = fl.seek_from_end(o);
                         let _ = fl.to_raw_file();
@@ -989,7 +1002,7 @@ impl World {
                 let h = self.files[f as usize].unwrap();
                 let r = match front {
                     Front::Raw => lift(catch_quiet(|| vm.flush_file(h))),
-                    Front::Raii => lift(catch_quiet(|| {
+                    Front::Raii | Front::Drop => lift(catch_quiet(|| {
                         let fl = h.to_file(vm);
                         let r = fl.flush();
                         let _ = fl.to_raw_file();
@@ -1012,6 +1025,10 @@ impl World {
                 let h = self.files[f as usize].unwrap();
                 let r = match front {
                     Front::Raw => lift(catch_quiet(|| vm.close_file(h))),
+                    Front::Drop => lift(catch_quiet(|| {
+                        drop(h.to_file(vm));
+                        Ok(())
+                    })),
                     _ => lift(catch_quiet(|| h.to_file(vm).close())),
                 };
                 // the handle is gone whether or not the flush inside close failed
